@@ -186,6 +186,10 @@ def compare_runs(spec, run0, run1, t0, fit, lin, vmap, cmap, fails, info, kind, 
         info["count"]["tension_not_compared_optimum_not_unique"] += 1
         return
     tol = 2.0 * C_TOL[worst_cls] * max(1.0, c["cond"])
+    # far translations (up to 1e4 tissue sizes) lose ~log10(shift/size) digits of every coordinate difference in floating point:
+    # the coefficient tolerance of the class is an absolute bound at the origin, scale it with the relative size of the shift
+    if "far" in kind:
+        tol *= 100.0
     if tol > T_TOL_MAX:
         info["count"]["tension_not_compared_ill_conditioned"] += 1
         return
